@@ -24,7 +24,7 @@ def plan(tier, seed):
   for i in range(4 if q else 10):
     specs.append({'shard': 'tinydl-%d' % i, 'a3': i % 2 == 0,
                   'pmin': 200 if q else 600, 'pmax': 900 if q else 4000,
-                  'hist': 40 if q else 200})
+                  'hist': 10 if q else 60})
   for name in gen.NAMED:
     specs.append({'shard': 'nameddl-' + name, 'curve': name,
                   'calls': 3 if q else 12})
@@ -103,31 +103,39 @@ def run_tinydl(ctx, spec):
         while len(chunk) < ln:
           chunk.append(rng.below(bound))
         _batchdl(ctx, rc, mc, chunk, bound, 'fresh')
-  # (b) histories on one object: growing, shrinking, alternating shapes with
-  # interleaved difference searches (which replace the cached table)
-  rc = make_repo_curve(mc, -3 if spec['a3'] else None)
+  # (b) histories on one object: warm-up calls that leave tables of various
+  # sizes (perfect squares included; difference searches replace / extend the
+  # table too), then an exhaustive sweep of every x with a shape whose table
+  # is larger, and one whose table is smaller, than what is cached
   for h in range(spec['hist']):
     if not ctx.want('hist/%d' % h):
       continue
-    kind = rng.below(4)
-    if kind == 3:
-      md = rng.choice([2, 3, 8, 20, n // 4])
-      d1 = rng.randint(1, n - 1)
-      d2 = (d1 + rng.randint(1, md - 1)) % n if md > 1 else d1
-      if d2 == 0:
-        continue
-      try:
-        rc.BatchDLOfDifferences([mc.mulg(d1), mc.mulg(d2)], max_diff=md)
-        ctx.count('history_difference_calls')
-      except Exception as e:  # pylint: disable=broad-except
-        ctx.violation('batchdldiff-raised-%s' % type(e).__name__, repr(e),
-                      {'curve': mc.name, 'd1': d1, 'd2': d2, 'md': md})
-      continue
-    bound = rng.choice(bounds + [rng.randint(1, n)])
-    ln = rng.choice([1, 2, 3, 5, 17, 40, 64])
-    xs = [rng.below(bound) for _ in range(ln)]
-    xs[0] = rng.choice([0, bound - 1, xs[0]])
-    _batchdl(ctx, rc, mc, xs, bound, 'hist')
+    rc = make_repo_curve(mc, -3 if spec['a3'] else None)
+    for _ in range(rng.randint(1, 4)):
+      if rng.chance(1, 2):
+        md = rng.choice([2, 3, 4, 9, 16, 20, 25, 36, 64])
+        d1 = rng.randint(1, n - 1)
+        d2 = (d1 + rng.randint(1, md - 1)) % n or 1
+        try:
+          rc.BatchDLOfDifferences([mc.mulg(d1), mc.mulg(d2)], max_diff=md)
+          ctx.count('history_difference_calls')
+        except Exception as e:  # pylint: disable=broad-except
+          ctx.violation('batchdldiff-raised-%s' % type(e).__name__, repr(e),
+                        {'curve': mc.name, 'd1': d1, 'd2': d2, 'md': md})
+      else:
+        b0 = rng.choice([4, 9, 16, 30, 64, 100, n // 7])
+        l0 = rng.choice([1, 1, 2, 4, 9])
+        _batchdl(ctx, rc, mc, [rng.below(b0) for _ in range(l0)], b0, 'warm')
+    for (bound, ln) in ((rng.choice([n // 2, n - 1, n]), rng.choice(
+        [1, 2, 5, 17])), (rng.choice([16, 50, n // 5]), 1)):
+      xs_all = list(range(bound))
+      rng.shuffle(xs_all)
+      for i in range(0, len(xs_all), ln):
+        chunk = xs_all[i:i + ln]
+        while len(chunk) < ln:
+          chunk.append(rng.below(bound))
+        _batchdl(ctx, rc, mc, chunk, bound, 'hist')
+    ctx.count('history_sweeps')
 
 
 def run_nameddl(ctx, spec):
@@ -137,18 +145,30 @@ def run_nameddl(ctx, spec):
   shapes = [(2 ** 16, 1), (2 ** 20, 3), (2 ** 12, 64), (2 ** 18, 17),
             (2 ** 22, 2), (1000, 5), (2 ** 14, 33), (2 ** 16, 2)]
   rng.shuffle(shapes)
+  seen_sizes = set()
+  # a small table first (a difference search with max_diff = 256 / 64)
+  md0 = rng.choice([64, 256])
+  rc.BatchDLOfDifferences([mc.mulg(5), mc.mulg(7)], max_diff=md0)
+  shapes = sorted(shapes[:spec['calls']], key=lambda s_: s_[0] * s_[1])
   for bound, ln in shapes[:spec['calls']]:
     if not ctx.want('%d/%d' % (bound, ln)):
       continue
     ts = int((bound * ln) ** 0.5)
     t = 2 * ts - 1
+    seen_sizes.add(int(rc._table_size))
     cand = [0, 1, bound - 1, bound // 2]
-    for j in range(1, bound // t + 2):
+    for j in range(0, bound // t + 2):
       for d in (0, ts - 1, -(ts - 1), ts, -ts, 1, -1):
         cand.append(j * t + d)
+      # logs that fall on the edge of a table cached by an earlier call
+      for sz in seen_sizes:
+        for d in (sz - 1, sz, sz + 1):
+          cand += [j * t + d, j * t - d]
     cand = [x for x in cand if 0 <= x < bound]
     rng.shuffle(cand)
-    cand = cand[:ln * 4] + [rng.below(bound) for _ in range(ln)]
+    edge = [x for x in cand if any(abs(x % t - sz) <= 1 or abs(
+        (-x) % t - sz) <= 1 for sz in seen_sizes)][:ln * 6]
+    cand = edge + cand[:ln * 4] + [rng.below(bound) for _ in range(ln)]
     for i in range(0, len(cand) - ln + 1, ln):
       _batchdl(ctx, rc, mc, cand[i:i + ln], bound, 'named')
   try:
@@ -308,8 +328,13 @@ def run_diff(ctx, spec):
         continue
       base = rng.below(n - 2 * md - 10) + md + 5
       kind = rep % 6
+      prev = [m_ for m_ in spec['maxdiffs'] if m_ < md]
       delta = {0: 1, 1: md - 1, 2: rng.randint(1, md - 1), 3: 0,
                4: md + rng.randint(1000, 2 ** 40), 5: rng.randint(1, md - 1)}[kind]
+      if prev and rep % 2 and kind in (0, 2, 5):
+        # exactly the size of the table an earlier, smaller search left behind
+        delta = rng.choice(prev) + rng.choice([0, 0, -1, 1])
+        delta = max(1, min(delta, md - 1))
       ds = [base, base + delta]
       if kind == 5:
         ds = [base + delta, base]      # negative difference, other order
@@ -401,6 +426,7 @@ def finalize(agg, tier):
   c = agg['counters']
   inc = []
   for k in ('table:rebuilt', 'table:cached-larger', 'history_difference_calls',
+            'history_sweeps',
             'structured_keys_found', 'close_pairs', 'identical_keys',
             'form:shift', 'form:repeat'):
     if not c.get(k):
